@@ -10,7 +10,7 @@ from __future__ import annotations
 from typing import Callable, List, Optional, Tuple
 
 from .core import Check, Repo
-from .ir import Event, Term, Walker, contains, facts, has_guard, mk_not, show, tkey
+from .ir import Event, Term, Walker, contains, facts, has_guard, mk_not, not_nil_forms, show, tkey
 from .kinds import Kinds, node_of
 from .schema import (
     Competition,
@@ -191,6 +191,41 @@ def check_removal_bookkeeping(rep: Rep, pre: str, comp: Competition) -> List[Eve
     return okc
 
 
+def _deferred_labels(w, comp) -> List[Event]:
+    """Labels written once, after the competition: `for t in idx_nodes: if pred(t) != NIL: label(t) = label(pred(t))`.  The
+    conquest order lists every node after its final predecessor, so this gives each node the label its last accepted offer
+    would have copied.  Returns the label store of such a pass (run unconditionally right after the loop, over the whole
+    order, nothing else writing pred / predicted_label in between), else []."""
+    order = ("attr", comp.graph, "idx_nodes")
+    for li in w.loops.values():
+        if li.kind != "for" or li.domain != order or li.loops != comp.loop.loops or li.first_seq < comp.loop.last_seq \
+                or facts(li.guards) != facts(comp.loop.guards):
+            continue
+        t = ("iter", order, li.lid)
+        inner = [e for e in w.events if li.lid in e.loops]
+        stores = [e for e in inner if e.kind == "store" and e.target[0] == "attr" and e.target[2] in ("predicted_label", "pred", "cost")]
+        if len(stores) != 1 or stores[0].aug or stores[0].loops != li.loops + (li.lid,):
+            continue
+        e = stores[0]
+        src = comp.field(comp.field(t, "pred"), "predicted_label")
+        val = e.value
+        while val[0] == "old":
+            val = val[1]
+        # (the value read is the label of an earlier node of the order: written by an earlier round, or by the seeding)
+        strip = lambda x: tuple(strip(y) for y in (x[1] if x[0] == "old" else x)) if isinstance(x, tuple) and x else x
+        if e.target != comp.field(t, "predicted_label") or strip(val) != strip(src):
+            continue
+        own = [g for g in facts(e.guards) if g not in facts(li.guards)]
+        if len(own) != 1 or strip(own[0]) not in [strip(f) for f in not_nil_forms(comp.field(t, "pred"))]:
+            continue
+        between = [x for x in w.events if comp.loop.last_seq < x.seq < li.first_seq and x.kind == "store"
+                   and x.target[0] == "attr" and x.target[2] in ("predicted_label", "pred")]
+        if between or any(x.kind in ("break", "continue", "return", "raise") for x in inner):
+            continue
+        return [e]
+    return []
+
+
 def _current_copy(w, comp, e, val) -> bool:
     """e stores a copy of `val` (a field of the removed node) taken earlier in the same removal, stale only on account of
     stores, none of which goes to `val` itself between the copy and e."""
@@ -260,6 +295,10 @@ def check_fmax_competition(rep: Rep, pre: str, comp: Competition,
         lab_ok = [e for e in branch if e.target == comp.field(q, "predicted_label") and not e.aug
                   and (e.value == comp.field(p, "predicted_label")
                        or (q_not_p and _current_copy(w, comp, e, comp.field(p, "predicted_label"))))]
+        deferred = []
+        if not lab_ok and not any(e.kind == "store" and e.target[0] == "attr" and e.target[2] == "predicted_label" for e in comp.events):
+            deferred = _deferred_labels(w, comp)
+            lab_ok = deferred[:1] if deferred else lab_ok
         rep.ev(pre + "IFT-pred", u.event, len(pred_ok) == 1,
                "accepted branch must set nodes[q].pred = p (the removed node)",
                construct="accepted branch of " + u.event.text())
